@@ -80,7 +80,7 @@ impl Check for C24 {
         proptest::strategy::Union::new(vec![gcase(p, false), gcase(q, false), gcase(r, true)]).boxed()
     }
     fn cases(&self, tier: Tier) -> u32 {
-        tier.pick(2500, 50000)
+        tier.pick(10000, 150000)
     }
     fn run(&self, case: &GCase, st: &mut Stats) -> Verdict {
         let text = case.grammar.print();
@@ -226,7 +226,7 @@ impl Check for C25 {
         proptest::strategy::Union::new(vec![annotated(p, false), annotated(q, true)]).boxed()
     }
     fn cases(&self, tier: Tier) -> u32 {
-        tier.pick(4000, 80000)
+        tier.pick(60000, 800000)
     }
     fn run(&self, case: &GCase, st: &mut Stats) -> Verdict {
         let text = case.grammar.print();
@@ -484,7 +484,7 @@ impl Check for C26 {
             .boxed()
     }
     fn cases(&self, tier: Tier) -> u32 {
-        tier.pick(8000, 200000)
+        tier.pick(60000, 1000000)
     }
     fn run(&self, c: &TextGrammarCase, st: &mut Stats) -> Verdict {
         st.eval(1);
@@ -625,7 +625,7 @@ impl Check for C33 {
         proptest::strategy::Union::new(vec![mk(false), mk(true)]).boxed()
     }
     fn cases(&self, tier: Tier) -> u32 {
-        tier.pick(3000, 60000)
+        tier.pick(24000, 300000)
     }
     fn run(&self, case: &GCase, st: &mut Stats) -> Verdict {
         use std::collections::BTreeSet;
@@ -731,6 +731,10 @@ impl Check for C33 {
             let infra = ["Grammar", "GrammarAuto", "GrammarTrait", "ASTType"];
             if infra.contains(&d.as_str()) && case.grammar.used_names().iter().any(|n| crate_upper_camel(n) == d) {
                 return Verdict::Fail("C33:non_terminal_named_like_generated_infrastructure_type".into(), format!("type {d} is defined twice\n{text}"));
+            }
+            if infra.contains(&d.as_str()) {
+                // e.g. non-terminal `Grammar` with an alternative named after symbol `Trait`
+                return Verdict::Fail("C33:production_type_name_equals_generated_infrastructure_type".into(), format!("type {d} is defined twice\n{text}"));
             }
             return Verdict::Fail("C33:type_names_not_distinct".into(), format!("type {d} is defined twice\n{text}"));
         }
